@@ -146,3 +146,21 @@ Lemma ex_vote :
   nearest q refs S = Some 1%nat /\
   ancestor_at ex_tree 1 3 1 = Some 3.
 Proof. vm_compute. repeat split; reflexivity. Qed.
+
+Lemma znodup_nat : NoDup [2%nat; 0%nat; 3%nat; 1%nat].
+Proof. repeat constructor; cbn; intuition lia. Qed.
+Lemma znodup_nat3 : NoDup [1%nat; 2%nat; 0%nat].
+Proof. repeat constructor; cbn; intuition lia. Qed.
+Lemma ex_file_wf :
+  sf_wf ex_sf /\ Permutation [2%nat; 0%nat; 3%nat; 1%nat] (seq 0 (length (sf_n ex_sf))) /\
+  Permutation [1%nat; 2%nat; 0%nat] (seq 0 (length (sf_cols ex_sf))).
+Proof.
+  split; [|split].
+  - unfold sf_wf. cbn. split; [reflexivity|]. split; [repeat constructor|]. split.
+    + apply znodup_b_spec. vm_compute. reflexivity.
+    + repeat constructor; cbn; lia.
+  - apply NoDup_Permutation; [apply znodup_nat | apply seq_NoDup |].
+    intros x. cbn. intuition lia.
+  - apply NoDup_Permutation; [apply znodup_nat3 | apply seq_NoDup |].
+    intros x. cbn. intuition lia.
+Qed.
